@@ -773,6 +773,15 @@ def family(name):
         cs.append(net.perc_eq((None,) * 4, (None,) * 4))
         net.family_constraints += cs
         return net
+    if name == "TWOATT3":
+        # 3 variables, no trap space except the whole space, at least two attractors: a MINIMAL trap space that holds
+        # more than one attractor (code that believes "one attractor per minimal trap space" is wrong here)
+        net = SymNet(3)
+        net.family_constraints += [fNot(net.trap(S)) for S in net.subspaces if any(x is not None for x in S)]
+        net.family_constraints.append(fOr([fAnd([net.attr(x), net.attr(y), fNot(net.reach(x, y))])
+                                           for i, x in enumerate(net.states) for y in net.states[i + 1:]]))
+        net.family_constraints += net.take_pending_defs()
+        return net
     if name == "SKIP3":
         # 3 variables (x, y, z) constrained so that the full diagram has a SHORTCUT: {x=1} and {y=1} are both stable motifs
         # of the whole space, {x=1} percolates to {x=1,y=1} (which is therefore also a successor of the node {y=1}), and
@@ -834,6 +843,12 @@ def component(name, tag):
         c.family_constraints.append(fOr([fAnd([c.attr(st), fNot(inmin(st))]) for st in c.states if st[0] == 1]))
         c.family_constraints += [z3.Implies(c.attr(st), inmin(st)) for st in c.states if st[0] == 0]
         c.family_constraints += c.take_pending_defs()
+        return c
+    if name == "RING3":
+        # a ring a <- c, b <- a, c <- b with a stable motif that fixes all three variables at once
+        c = SymNet(3, wiring={0: (2,), 1: (0,), 2: (1,)}, tag=tag)
+        c.family_constraints.append(fOr([c.trap(S) for S in c.subspaces if all(x is not None for x in S)]))
+        c.family_constraints += [fNot(c.is_source(v, (None,) * 3)) for v in range(3)]
         return c
     if name == "MAAD4":
         from . import specs
